@@ -58,6 +58,9 @@ func execForced(c *core.Case, fc *forcedCase) {
 		}
 		log := w.log.snapshot()
 		c.Extra(log)
+		if d.dead {
+			return
+		}
 		judge(c, mc, d, log)
 	}
 	joinNormally := func() bool {
